@@ -26,6 +26,15 @@ Hypotheses that appear, and why they are legitimate:
 
 The three repaired defects are kept as `…Legacy` kernels with `decide`-checked witnesses
 (`C08_legacy_*`) on the inputs recorded in KNOWN_FINDINGS.txt.
+
+Improvement round: the kernels whose `PK` model was tied to the code "by reading only" (`/asm/v1` length
+arithmetic, decode loop, `LineBuffer`, `.symindex` layout, Breakpad lookups) are now connected by theorems to
+the models other properties compare with the code value-for-value (`Asm.*` — C20, `LB.*` / `BP.*` — C10,
+`Sym.queryApi` — C07), see the section "the same facts on the models that are tied"; lookups on arbitrary
+(stale, corrupted) indexes with the memo tables of the symbol map and `iter_symbols()` are modelled in
+`Model/BreakpadServe.lean` and compared by C08's own `bpmap` operation; the text `Api::query_api` returns
+(dispatch, the hand-built error object) is modelled in `Model/JsonText.lean` next to an independent RFC 8259
+recogniser that the judge runs on response texts (`C08_error_object_is_json`, `C08_api_text_acceptable`).
 Only property theorems (names `C08_*`) and non-vacuity examples live in this file.
 -/
 open PK
@@ -240,6 +249,22 @@ theorem C08_linebuffer_total_tied (chunks : List (List UInt8)) :
     (LB.finish (LB.consumeAll LB.St.init chunks).1).isSome = true := by
   have h := C08T.consumeAll_inv LB.St.init chunks (by simp [LB.Inv, LB.St.init])
   exact ⟨by simpa [LB.consumeSafe, LB.Inv] using h, C08T.finish_isSome _ h⟩
+
+/-- **`serialize_to_bytes` layout arithmetic, tied and exact.** For every index value, the `u32` computation of
+index.rs:166-182 (every step an explicit `panic` in `PK.symindexLayout`) succeeds exactly when the total length
+of C10's byte-exact serialisation model fits in `u32`, and then yields exactly that length (so the
+`assert_eq!(vec.len(), total_file_len)` at :206 compares the two quantities this theorem equates). This replaces
+the hypothesis "below 4 GiB − 3" of `C08_kernels_total_symindex_layout_partial` by the exact boundary; what
+remains excluded is the region itself (an index of 4 GiB or more), see `C08_symindex_layout_excluded`. -/
+theorem C08_symindex_layout_tied (ix : BP.Index) :
+    symindexLayout ix.moduleInfo.length ix.files.length ix.origins.length ix.addrs.length =
+      (if BP.totalLen ix < BP.pow32 then .ok (BP.totalLen ix) else .panic) := by
+  rw [C08T.totalLen_eq]
+  split
+  · rename_i h
+    exact C08T.symindexLayout_exact _ _ _ _ (by simp only [BP.pow32] at h; simp only [u32Max]; omega)
+  · rename_i h
+    exact C08T.symindexLayout_panic _ _ _ _ (by simp only [BP.pow32] at h; simp only [u32Max]; omega)
 
 /-- `parse_symindex_file` only accepts files whose two symbol arrays are equally long — the one fact about an
 accepted index (valid, stale or corrupted) that the lookups need. -/
